@@ -621,6 +621,10 @@ def classify_frozen(model, op):
     return "mutator"
 
 
+def _noop():
+    return None
+
+
 class C17:
     prop = "C17"
     shrink_parts = ("freeze", "ops")
@@ -662,6 +666,9 @@ class C17:
             if ra.random() < 0.5:
                 # registering a task object directly (here: one that is registered already) is a replacement too
                 out.append(("rereg", ra.randrange(64)))
+            if ra.random() < 0.4:
+                # a task id is any hashable: a tuple, say (registering a new task under it / unregistering one that never existed)
+                out.append(("tupleid", ra.randrange(1000), ra.choice(["register", "unregister"])))
             if ra.random() < 0.5:
                 # an expression that cannot even be evaluated right now (it reads a key that does not exist): still a ValueError
                 out.append(("failsete", ra.randrange(1000), ra.randrange(1000), ra.random() < 0.5, ra.choice(["item", "mgr"])))
@@ -733,6 +740,14 @@ class C17:
                         if not tids:
                             continue
                         cls, special = "mutator", (lambda t=mgr.tasks[tids[a[1] % len(tids)]]: mgr.register(t))
+                    elif a[0] == "tupleid":
+                        leaf = spec.leaves[a[1] % len(spec.leaves)]
+                        tidt = ("obs%s" % cfg["salt"], a[1] % 7)
+                        if a[2] == "register":
+                            tk = xd.tasks.FunctionTask(tidt, _noop, set(), {w.ref(leaf)})
+                            cls, special = "mutator", (lambda tk=tk: mgr.register(tk))
+                        else:
+                            cls, special = "mutator", (lambda tidt=tidt: mgr.unregister(tidt))
                     elif a[0] == "failsete":
                         free = [l for l in spec.leaves if l not in ex.model.ft_target and l not in ex.model.kn_target]
                         if not free:
